@@ -49,7 +49,10 @@ REBUILD_CFG = cfgd(MaxNB=2, InitNB=2, SPB=1, MaxV=1, MaxRev=3, MaxHead=1, MaxLen
 MC = {
     "C01": dict(quick=[cfgd(MaxV=1, Ops={"read", "reopen"}, Punch={True, False}),
                        cfgd(MaxNB=1, InitNB=1, SPB=2, MaxV=1, MaxHead=2, MaxLen=3, MaxRev=3, Ops={"unmap", "revert", "read"})],
-                thorough=[cfgd(MaxRev=4, Ops={"read", "reopen", "revert"}, Punch={True, False}),
+                # (MaxRev 4 with two values and both punch settings exceeds 9 M distinct states and 40 min:
+                # one dimension at a time, 1.5 M and 1.0 M distinct states)
+                thorough=[cfgd(MaxRev=3, Ops={"read", "reopen", "revert"}, Punch={True, False}),
+                          cfgd(MaxRev=4, MaxV=1, Ops={"read", "reopen", "revert"}, Punch={True, False}),
                           cfgd(MaxNB=3, InitNB=3, SPB=1, MaxV=1, MaxHead=3, MaxLen=4, MaxRev=4, Ops={"read"}),
                           cfgd(MaxNB=2, InitNB=2, MaxV=1, SPB=2, MaxRev=3, MaxHead=1, MaxLen=2, Ops={"read", "unmap", "reopen"}),
                           REBUILD_CFG],
